@@ -130,7 +130,7 @@ def call_novel_orf_peptide(args:argparse.Namespace) -> None:
         tx_model = anno.transcripts[tx_id]
         if tx_model.is_protein_coding:
             if not args.coding_novel_orf:
-                pass
+                continue
         else:
             if inclusion_biotypes and \
                     tx_model.transcript.biotype not in inclusion_biotypes:
